@@ -19,8 +19,8 @@ from ..gen import pysource
 from ..run import pydoctor_run
 
 ID = "C01"
-RULE = ("trees of 1-3 roots (packages with sub-package / flat modules) whose files come from the statement grammar "
-        "(pv/gen/pysource.py), from line/token mutations of pydoctor's own sources and demo packages, from a size class "
+RULE = ("trees of 1-3 roots (packages with sub-package / flat modules / roots named like pydoctor's own output files) whose files come from the statement grammar "
+        "(pv/gen/pysource.py; statements may be repeated further down, methods re-wrapped after their definition), from line/token mutations of pydoctor's own sources and demo packages, from a size class "
         "(long chains, deep nesting) and from raw byte files (BOM, bad UTF-8, NUL, coding cookies, odd stems), x docformat x "
         "theme x process-types. A case is non-trivial when >=1 file parses and defines a class or function, or an "
         "unparsable file sits beside a parsable one; distinct by hash of (files, args).")
